@@ -448,3 +448,92 @@ def unfold_maps_after(text, recv_start, recv_end, kind="Result"):
             expr = f"(match {expr} {{ Some({v}) => Some({_apply_fn_text(f, v)}), None => None }})"
     before = text[recv_start:j]
     return text[:recv_start] + expr + text[j:], before, expr
+
+
+def rule_match_strlits(text):
+    """E3s: `match EXPR { "a" => A, "b" | "c" => B, _ => C }` (string-literal patterns) -> the if/else-if chain testing the
+    literals in arm order (what a match on string literals means).  Returns (text, pairs)."""
+    pairs = []
+    guard = 0
+    while True:
+        guard += 1
+        if guard > 50:
+            raise Undecided("unsupported", "too many string matches")
+        done = True
+        for p in code_positions(text, "match "):
+            if p > 0 and (text[p - 1].isalnum() or text[p - 1] == "_"):
+                continue
+            # scrutinee up to the `{` at depth 0
+            j = p + 6
+            while j < len(text):
+                s = tokens_skip(text, j)
+                if s is not None:
+                    j = s
+                    continue
+                if text[j] in "([":
+                    j = match_close(text, j) + 1
+                    continue
+                if text[j] == "{":
+                    break
+                j += 1
+            if j >= len(text):
+                continue
+            scrut = text[p + 6:j].strip()
+            close = match_close(text, j)
+            inner = text[j + 1:close]
+            arms = []
+            k = 0
+            ok = True
+            while True:
+                while k < len(inner) and inner[k] in " \t\n,":
+                    k += 1
+                if k >= len(inner):
+                    break
+                # line comments between arms
+                s = tokens_skip(inner, k)
+                if s is not None and not inner.startswith('"', k):
+                    k = s
+                    continue
+                a = inner.find("=>", k)
+                if a < 0:
+                    ok = False
+                    break
+                pat = inner[k:a].strip()
+                b = a + 2
+                while b < len(inner) and inner[b] in " \t\n":
+                    b += 1
+                if b < len(inner) and inner[b] == "{":
+                    e = match_close(inner, b)
+                    body = inner[b:e + 1]
+                    k = e + 1
+                else:
+                    rest = split_top_commas(inner[b:])[0]
+                    body = "{ " + rest.strip() + " }"
+                    k = b + len(rest)
+                arms.append((pat, body))
+            if not ok or not arms:
+                continue
+            lits_only = all(re.fullmatch(r'(?:"[^"\\]*"\s*\|\s*)*"[^"\\]*"|_', pat) for (pat, _) in arms)
+            if not lits_only or not any(pat != "_" for (pat, _) in arms):
+                continue
+            if arms[-1][0] != "_" or any(pat == "_" for (pat, _) in arms[:-1]):
+                continue
+            simple = re.fullmatch(r"[\w.]+", scrut) is not None
+            name = scrut if simple else "__m"
+            out = []
+            for (pat, body) in arms:
+                if pat == "_":
+                    out.append(body)
+                else:
+                    lits = re.findall(r'"[^"\\]*"', pat)
+                    cond = " || ".join(f"{name}.eq_lit({l})" for l in lits)
+                    out.append(f"if {cond} {body} else ")
+            new = "".join(out)
+            if not simple:
+                new = "{ let __m = " + scrut + "; " + new + " }"
+            pairs.append((text[p:close + 1], new))
+            text = text[:p] + new + text[close + 1:]
+            done = False
+            break
+        if done:
+            return text, pairs
